@@ -45,6 +45,7 @@ type Exch struct {
 	Carries *Exch
 	// Deliveries of the reply: client receive stamps and backward delays.
 	CRx      []time.Time
+	CRxSoft  []bool // the delivery carried no kernel receive timestamp: the client reads its clock when it gets to the datagram
 	Bwd      []time.Duration
 	Accepted bool
 	// NoKernelTx: the (real) server could not read a kernel transmit timestamp
@@ -197,6 +198,7 @@ func (s *Sim) Deliver(r *Reply, sock *vnet.UDPConn, bwd time.Duration) {
 		d.RxTime = stamp
 	}
 	r.E.CRx = append(r.E.CRx, stamp)
+	r.E.CRxSoft = append(r.E.CRxSoft, !s.RxTS)
 	r.E.Bwd = append(r.E.Bwd, time.Since(r.Left)-0)
 	sock.Deliver(&d)
 	s.W.Settle()
@@ -244,7 +246,14 @@ func (s *Sim) Match(tu Tuple) (*Exch, int) {
 			continue
 		}
 		for i, rx := range e.CRx {
-			if near(tu.T3, rx, tol) || (!tu.T3.Before(rx) && tu.T3.Sub(rx) <= slack) {
+			late := slack
+			if i < len(e.CRxSoft) && e.CRxSoft[i] {
+				// without a kernel receive timestamp the client's own reading may come up to
+				// one poll timeout after the arrival (it may still be waiting for its
+				// transmit timestamp); a later t3 only widens the measured round-trip delay
+				late = 2 * time.Millisecond
+			}
+			if near(tu.T3, rx, tol) || (!tu.T3.Before(rx) && tu.T3.Sub(rx) <= late) {
 				return e, i
 			}
 		}
